@@ -31,6 +31,15 @@ def Payload.isValue : Payload → Prop
   | .value .. => True
   | _ => False
 
+/-- neither a value event nor a variable-definition event -/
+def Payload.isPlain : Payload → Prop
+  | .value .. => False
+  | .variable .. => False
+  | _ => True
+
+theorem Payload.isPlain.notValue {p : Payload} (h : p.isPlain) : ¬ p.isValue := by
+  cases p <;> first | exact fun h' => h' | exact fun _ => h
+
 /-- the event list of a walk, from variable-link table `l` to `l'` -/
 inductive Built (sv : SV) (d : QueryDoc) : VLinks → List Event → VLinks → Prop
   | nil (l : VLinks) : Built sv d l [] l
@@ -42,19 +51,21 @@ inductive Built (sv : SV) (d : QueryDoc) : VLinks → List Event → VLinks → 
       vd.default = some dv →
       Built sv d ws.links.vlinks (walkValue sv (some op) (some vd.type) (sv.type? vd.type.name) dv ws).2
         (walkValue sv (some op) (some vd.type) (sv.type? vd.type.name) dv ws).1.links.vlinks
-  | ev (e : Event) : ¬ e.p.isValue → Built sv d e.links.vlinks [e] e.links.vlinks
+  | vdef (op : OperationDef) (vd : VarDef) (l : Links) : op ∈ d.ops → vd ∈ op.vars →
+      Built sv d l.vlinks [{ cur := some op, links := l, p := .variable vd (sv.type? vd.type.name) }] l.vlinks
+  | ev (e : Event) : e.p.isPlain → Built sv d e.links.vlinks [e] e.links.vlinks
 
-theorem Built.ev' {sv : SV} {d : QueryDoc} (e : Event) (l : VLinks) (h : ¬ e.p.isValue) (hl : e.links.vlinks = l) :
+theorem Built.ev' {sv : SV} {d : QueryDoc} (e : Event) (l : VLinks) (h : e.p.isPlain) (hl : e.links.vlinks = l) :
     Built sv d l [e] l := by
   subst hl
   exact Built.ev e h
 
 theorem Built.snoc {sv : SV} {d : QueryDoc} {a b : VLinks} {es : List Event} (h : Built sv d a es b) (e : Event)
-    (hv : ¬ e.p.isValue) (hl : e.links.vlinks = b) : Built sv d a (es ++ [e]) b :=
+    (hv : e.p.isPlain) (hl : e.links.vlinks = b) : Built sv d a (es ++ [e]) b :=
   Built.append h (Built.ev' e b hv hl)
 
 theorem Built.cons {sv : SV} {d : QueryDoc} {a b : VLinks} {es : List Event} (e : Event)
-    (hv : ¬ e.p.isValue) (hl : e.links.vlinks = a) (h : Built sv d a es b) : Built sv d a (e :: es) b :=
+    (hv : e.p.isPlain) (hl : e.links.vlinks = a) (h : Built sv d a es b) : Built sv d a (e :: es) b :=
   Built.append (es := [e]) (Built.ev' e a hv hl) h
 
 theorem inDocW_dirs {sv : SV} {d : QueryDoc} {p' : Option Definition} {y : Selection} (h : InDocW sv d p' y) :
@@ -80,7 +91,7 @@ theorem walkDirectiveItems_built (cur : Option OperationDef) (hc : CurOK d cur) 
       (walkArgs sv cur ((sv.directive? dir.name).map (·.args)) dir.args ws).1
       (fun x hx => hsub x (List.mem_cons_of_mem _ hx))
     refine Built.append h1 (Built.cons _ ?_ rfl h2)
-    exact fun h => h
+    exact trivial
 
 theorem walkDirectives_built (cur : Option OperationDef) (hc : CurOK d cur) (parent : Option Definition)
     (ds : List Directive) (loc : Bytes) (ws : WS) (hds : InDoc sv d (.dirs loc ds)) :
@@ -88,7 +99,7 @@ theorem walkDirectives_built (cur : Option OperationDef) (hc : CurOK d cur) (par
       (walkDirectives sv cur parent ds loc ws).1.links.vlinks := by
   simp only [walkDirectives]
   refine Built.snoc (walkDirectiveItems_built cur hc parent loc ds hds ds ws (fun _ h => h)) _ ?_ rfl
-  exact fun h => h
+  exact trivial
 
 def JumpBuilt (sv : SV) (d : QueryDoc) (J : Jump) : Prop :=
   ∀ parent sels (ws : WS) r, (∀ p' y, InSelsW sv parent sels p' y → InDocW sv d p' y) → J parent sels ws = some r →
@@ -115,7 +126,7 @@ mutual
         have hb := walkSelections_built cur hc J hJ sub _ _ r3
           (fun p' y hi => hx p' y (InSelW.fieldSub parent al nm args dirs sub p p' y hi)) h3
         refine Built.snoc (Built.append (Built.append h1 h2) hb) _ ?_ rfl
-        exact fun h => h
+        exact trivial
     | .inline tc dirs sub p, parent, ws, r, hx, h => by
       unfold walkSelection at h
       simp only at h
@@ -130,7 +141,7 @@ mutual
         have hb := walkSelections_built cur hc J hJ sub _ _ r3
           (fun p' y hi => hx p' y (InSelW.inlineSub parent tc dirs sub p p' y hi)) h3
         refine Built.snoc (Built.append h2 hb) _ ?_ rfl
-        exact fun h => h
+        exact trivial
     | .spread nm dirs p, parent, ws, r, hx, h => by
       unfold walkSelection at h
       simp only at h
@@ -144,7 +155,7 @@ mutual
         injection h with h
         subst h
         refine Built.snoc (hd _) _ ?_ rfl
-        exact fun h => h
+        exact trivial
       | some f =>
         rw [hf] at h
         simp only at h
@@ -152,7 +163,7 @@ mutual
         · injection h with h
           subst h
           refine Built.snoc (hd _) _ ?_ rfl
-          exact fun h => h
+          exact trivial
         · split at h
           · cases h
           · rename_i r3 h3
@@ -168,7 +179,7 @@ mutual
               (Or.inr ⟨f, hfm, Or.inr rfl⟩)
             rw [hf] at hdd
             refine Built.snoc (Built.append (Built.append (hd _) hdd) hb) _ ?_ rfl
-            exact fun h => h
+            exact trivial
   theorem walkSelections_built (cur : Option OperationDef) (hc : CurOK d cur) (J : Jump) (hJ : JumpBuilt sv d J) :
       ∀ (xs : Selections) (parent : Option Definition) (ws : WS) r,
         (∀ p' y, InSelsW sv parent xs p' y → InDocW sv d p' y) →
@@ -200,13 +211,14 @@ theorem walkLevel_built (cur : Option OperationDef) (hc : CurOK d cur) : ∀ n, 
     simp only [walkLevel] at h
     exact walkSelections_built cur hc _ (walkLevel_built cur hc n) sels parent ws r hx h
 
-theorem walkVarDefsA_built (cur : Option OperationDef) (ws : WS) :
-    ∀ vs : List VarDef, Built sv d ws.links.vlinks (walkVarDefsA sv cur ws vs) ws.links.vlinks
-  | [] => Built.nil _
-  | v :: rest => by
+theorem walkVarDefsA_built (op : OperationDef) (hop : op ∈ d.ops) (ws : WS) :
+    ∀ vs : List VarDef, (∀ v ∈ vs, v ∈ op.vars) →
+      Built sv d ws.links.vlinks (walkVarDefsA sv (some op) ws vs) ws.links.vlinks
+  | [], _ => Built.nil _
+  | v :: rest, hsub => by
     simp only [walkVarDefsA]
-    refine Built.cons _ ?_ rfl (walkVarDefsA_built cur ws rest)
-    exact fun h => h
+    exact Built.append (es := [_]) (Built.vdef op v ws.links hop (hsub v List.mem_cons_self))
+      (walkVarDefsA_built op hop ws rest (fun x hx => hsub x (List.mem_cons_of_mem _ hx)))
 
 theorem walkVarDefsB_built (op : OperationDef) (hop : op ∈ d.ops) :
     ∀ (vs : List VarDef) (ws : WS), (∀ v ∈ vs, v ∈ op.vars) →
@@ -247,14 +259,14 @@ theorem walkOperation_built (fuel : Nat) (op : OperationDef) (hop : op ∈ d.ops
   · rename_i r4 h4
     injection h with h
     subst h
-    have hA := walkVarDefsA_built (sv := sv) (d := d) (some op) { visited := [], links := l, used := [] } op.vars
+    have hA := walkVarDefsA_built (sv := sv) (d := d) op hop { visited := [], links := l, used := [] } op.vars (fun _ h => h)
     have hB := walkVarDefsB_built (sv := sv) op hop op.vars { visited := [], links := l, used := [] } (fun _ h => h)
     have hD := walkDirectives_built (sv := sv) (some op) hc (opRoot sv op.op).1 op.dirs (opRoot sv op.op).2
       (walkVarDefsB sv (some op) op.vars { visited := [], links := l, used := [] }).1
       (Or.inl ⟨op, hop, Or.inr (Or.inl rfl)⟩)
     have hb := walkLevel_built (sv := sv) (some op) hc fuel _ _ _ r4 (fun p' y hi => Or.inl ⟨op, hop, hi⟩) h4
     refine Built.snoc (Built.append (Built.append (Built.append hA hB) hD) hb) _ ?_ rfl
-    exact fun h => h
+    exact trivial
 
 theorem walkFragment_built (fuel : Nat) (f : FragmentDef) (hf : f ∈ d.frags) (l : Links)
     (r : Links × List Event) (h : walkFragment sv d fuel f l = some r) : Built sv d l.vlinks r.2 r.1.vlinks := by
@@ -270,7 +282,7 @@ theorem walkFragment_built (fuel : Nat) (f : FragmentDef) (hf : f ∈ d.frags) (
       { visited := [], links := l, used := [] } (Or.inr ⟨f, hf, Or.inr rfl⟩)
     have hb := walkLevel_built (sv := sv) none hc fuel _ _ _ r2 (fun p' y hi => Or.inr ⟨f, hf, hi⟩) h2
     refine Built.snoc (Built.append hD hb) _ ?_ rfl
-    exact fun h => h
+    exact trivial
 
 theorem walkOps_built (fuel : Nat) :
     ∀ (ops : List OperationDef), (∀ op ∈ ops, op ∈ d.ops) → ∀ (l : Links) (r : Links × List Event),
